@@ -114,6 +114,9 @@ def _run_cargo(work, outdir, inventory, roots_filter=None, local=None, loop_boun
 def extract(tag, harness_src, features=(), extra_deps='', inventory=False, use_cache=True, local=None, loop_bound=None):
     """Returns (Summaries, inventory-or-None, meta).  harness_src: Rust source, one wrapper fn per line."""
     os.makedirs(CACHE, exist_ok=True)
+    extra = [f for f in os.environ.get('VERIF_FEATURES_EXTRA', '').split(',') if f]
+    if extra:
+        features = tuple(features) + tuple(f for f in extra if f not in features)
     rh = _repo_hash()
     key = hashlib.sha256(('%s|%s|%s|%s|%s|%s|%s|%s' % (rh, _engine_hash(), harness_src, ','.join(features), extra_deps, inventory, local, loop_bound)).encode()).hexdigest()[:24]
     cdir = os.path.join(CACHE, key)
